@@ -173,8 +173,9 @@ Wit(T, vals, emp) ==
           /\ L # {}
           /\ \A i \in 1..Len(T.a) : Wit(T.a[i], {v.a[i] : v \in L}, FALSE)
     [] T.k = "td"       ->
-          LET L == {v \in vals : v.k = "dict" /\ AllStrKeys(v) /\ Len(v.a) > 0} IN
-          /\ L # {}
+          \* every observed dict at this position counts, the empty one too: it lacks every key
+          LET L == {v \in vals : v.k = "dict" /\ AllStrKeys(v)} IN
+          /\ \E v \in L : Len(v.a) > 0
           /\ T.u # {}
           /\ \A f \in T.u :
                 LET has == {v \in L : HasKey(v, f.n)} IN
